@@ -38,6 +38,10 @@ SERVER_ROWS = ["std-ctx", "std-ctx-clientcert", "pyo-ctx", "pyo-ctx-clientcert",
 GEMINI_RESP = re.compile(rb"(^|\n)[1-6][0-9] [^\r\n]*\r\n")
 
 
+class _NoTls(Exception):
+    pass
+
+
 def _spy_factory(counter):
     from nauyaca.protocol.response import GeminiResponse
     from nauyaca.server.protocol import GeminiServerProtocol
@@ -130,6 +134,15 @@ def run_server(case: dict):
 
     async def scenario(loop):
         factory, sslctx, task = await _build_row(loop, case["row"], counter)
+        if sslctx is None:
+            from nauyaca.server.tls_protocol import TLSServerProtocol
+
+            probe = factory()
+            if not isinstance(probe, TLSServerProtocol) or probe.ssl_context is None:
+                if task:
+                    task.cancel()
+                raise _NoTls(f"create_server was given no ssl context and a {type(probe).__name__} factory "
+                             f"(ssl_context={getattr(probe, 'ssl_context', None)!r}): the listener would speak plaintext")
         cctx = memnet.permissive_client_ctx(VERS[vn], VERS[vn], seclevel0=True)
         conn = memnet.ServerConn(loop, factory, sslctx, cctx)
         raw = bytearray()
@@ -150,7 +163,10 @@ def run_server(case: dict):
             task.cancel()
         return conn, hs, bytes(raw)
 
-    conn, hs, raw = vloop.run(scenario)
+    try:
+        conn, hs, raw = vloop.run(scenario)
+    except _NoTls as e:
+        return viol("listener-without-tls", f"{case['row']}: {e}")
     plain = bytes(conn.client.plain)
     info = {"handshake": hs, "negotiated": conn.client.obj.version() if hs else None, "served": len(counter),
             "plain": b2s(plain[:30])}
